@@ -144,6 +144,13 @@ func (dec *Decoder) Decode() (*Document, error) {
 			// This means the file is not valid. I have seen it in very rare
 			// cases. See full explanation in AllowInvalidIndents.
 			if dec.AllowInvalidIndents {
+				// Even the most lenient reading needs a node to attach to.
+				if len(indents) == 0 {
+					return nil, fmt.Errorf(
+						"line %d: indent without any parent: %s",
+						lineNumber, line)
+				}
+
 				indent = len(indents)
 			} else {
 				panic(fmt.Sprintf(
